@@ -237,6 +237,62 @@ def check_inner(case):
             "extra": {"sessions": n_runs}, "sample": {"pending": pending, "before": src, "after": allatonce.decode()}}
 
 
+# ------------------------------------------------------------ real sessions, added imports
+
+
+@st.composite
+def _strategy_imports(draw, tier):
+    """sites whose new code needs `external` / `HasRepr` imports, pending in the same or in different categories"""
+    kinds = draw(st.lists(st.sampled_from(["ext-create", "ext-fix", "opaque-create", "opaque-fix", "plain-fix", "plain-create"]),
+                          min_size=2, max_size=3))
+    return {"kinds": kinds, "imported": draw(st.sampled_from([[], [], ["external"], ["HasRepr"]]))}
+
+
+def imports_signature(case):
+    need = {}
+    for k in case["kinds"]:
+        name = {"ext": "external", "opaque": "HasRepr"}.get(k.split("-")[0])
+        if name and name not in case["imported"]:
+            need.setdefault(name, set()).add(k.split("-")[1])
+    if len(need) == 2 and need["external"] != need["HasRepr"]:
+        return {"added-import-order"}
+    return set()
+
+
+def check_imports(case):
+    import shutil
+
+    lines = ["from inline_snapshot import snapshot, outsource"] + [f"from inline_snapshot import {n}" for n in case["imported"]]
+    lines += ["from vf_prelude import *", "", "", "def test_a():"]
+    for i, k in enumerate(case["kinds"]):
+        obs = {"ext": f"outsource('data {i}')", "opaque": f"[Opaque({i})]", "plain": f"[{i}]"}[k.split("-")[0]]
+        old = "" if k.endswith("create") else "[99]"
+        lines.append(f"    assert {obs} == snapshot({old})")
+    src = "\n".join(lines) + "\n"
+
+    def run(order):
+        d = drivers.make_project({"test_a.py": src})
+        try:
+            for f in order:
+                r = drivers.run_pytest(d, ["--inline-snapshot=" + f])
+                if "INTERNALERROR" in r.stdout or r.returncode not in (0, 1):
+                    raise Violation("session-broken", f"{order} rc={r.returncode}\n{src}\n{r.stdout[-1500:]}")
+            return r.files_after["test_a.py"]
+        finally:
+            shutil.rmtree(d, ignore_errors=True)
+
+    together = run(["create,fix"])
+    ref = _dump(together, "together", src)
+    for order in (["create", "fix"], ["fix", "create"]):
+        out = run(order)
+        if _dump(out, str(order), src) != ref:
+            raise Violation("order-dependent:added-imports",
+                            f"order {order} differs from create,fix together\n--- original\n{src}\n--- together\n"
+                            f"{together.decode()}\n--- {order}\n{out.decode()}")
+    return {"nontrivial": any(k.split("-")[0] != "plain" for k in case["kinds"]), "classes": sorted(set(case["kinds"])),
+            "sample": {"before": src, "after": together.decode()}}
+
+
 def _strategy_assert(tier):
     return gp.program_with_prev(tier, max_sites=4, min_sites=2, styles=("assert",), p_missing=0.25,
                                 ops=("eq", "in", "getitem", "le", "ge", "eq")).map(lambda p: {"prog": p})
@@ -253,6 +309,8 @@ ARMS = [
            budget={"quick": 120, "thorough": 8000}),
     HypArm("orders_mixed", _strategy_mixed, check_mixed, budget={"quick": 300, "thorough": 10000}),
     HypArm("orders_inner", _strategy_inner, check_inner, budget={"quick": 200, "thorough": 5000}),
+    HypArm("real_imports", _strategy_imports, check_imports, signature=imports_signature,
+           budget={"quick": 16, "thorough": 300}, shrink=False, min_per_shard=2),
     HypArm("together_real_session", _strategy, check_pytest, signature=positional_signature,
            budget={"quick": 64, "thorough": 2000}, shrink=False),
 ]
